@@ -280,6 +280,67 @@ func entryLocks(fn *ssa.Function, ann *lockAnn) lockState {
 	return st
 }
 
+// inferredEntryLocks: the annotated pre-condition of fn, or, for an unannotated unexported
+// function that is only ever called statically, the locks held at every one of its call
+// sites (expressed over its own parameters). A few lines moved into a helper are then
+// checked under the locks of the place they came from, annotation or not.
+func inferredEntryLocks(P *Program, fn *ssa.Function, ann *lockAnn, depth int) lockState {
+	st := entryLocks(fn, ann)
+	fo, _ := fn.Object().(*types.Func)
+	if len(st) > 0 || fo == nil || depth > 3 || ast.IsExported(fn.Name()) || fn.Parent() != nil {
+		return st
+	}
+	if len(ann.fnPre[fo])+len(ann.fnPreRead[fo]) > 0 {
+		return st
+	}
+	edges := P.Callers(fn)
+	if len(edges) == 0 {
+		return st
+	}
+	var acc lockState
+	for _, e := range edges {
+		call, ok := e.Site.(*ssa.Call)
+		if !ok || staticCallee(&call.Call) != fn || !InModule(e.Caller.Func) {
+			return st // go statements, defers, dynamic calls: nothing can be assumed
+		}
+		caller := e.Caller.Func
+		in := heldLocks(caller, inferredEntryLocks(P, caller, ann, depth+1))
+		held := locksAt(caller, in, call)
+		here := lockState{}
+		args := callArgs(&call.Call)
+		for i, par := range fn.Params {
+			if i >= len(args) {
+				break
+			}
+			a := apString(args[i])
+			if a == "" {
+				continue
+			}
+			for l, mode := range held {
+				if strings.HasPrefix(l, a+".") {
+					here[par.Name()+l[len(a):]] = mode
+				}
+			}
+		}
+		if acc == nil {
+			acc = here
+		} else {
+			for l, mode := range acc {
+				m2, ok := here[l]
+				if !ok {
+					delete(acc, l)
+				} else if m2 == 'r' && mode == 'w' {
+					acc[l] = 'r'
+				}
+			}
+		}
+	}
+	if acc == nil {
+		return st
+	}
+	return acc
+}
+
 // isConstruction: base is an object allocated in this function (not yet shared).
 func isConstruction(base ssa.Value) bool {
 	root, _ := accessPath(base)
@@ -332,7 +393,7 @@ func guardedByRule(c *Ctx, rule string, rels []string, supplement map[*types.Var
 		if _, ex := exemptFns[FuncName(fn)]; ex {
 			continue
 		}
-		in := heldLocks(fn, entryLocks(fn, ann))
+		in := heldLocks(fn, inferredEntryLocks(P, fn, ann, 0))
 		name := FuncName(fn)
 		eachInstr(fn, func(ins ssa.Instruction) {
 			pos := P.Fset.Position(instrPos(ins))
